@@ -1,0 +1,41 @@
+//go:build verif
+
+// Contracts for the deductive verification in /verif (govc). Comment-only.
+// Oracle: Cassandra's MurmurHash.hash3_x64_128 (see /verif/spec/bv.smt2, block mm3).
+
+package murmur
+
+//@ func fmix
+//@   props C09
+//@   abstract_mul int64
+//@   ensures result == mm3_fmix(n)
+
+//@ func block
+//@   props C09
+//@   ensures result == int64(int8(p))
+
+//@ func rotl
+//@   props C09
+//@   requires 0 < r && r < 64
+//@   ensures result == mm3_rotl(x, int64(r))
+
+// getBlock reads through unsafe.Pointer; its contract is ASSUMED (little-endian
+// host), equal to the portable murmur_appengine.go version.
+//@ func getBlock
+//@   props C09
+//@   trusted unsafe pointer cast; little-endian load assumed
+//@   requires 0 <= n && n*16+16 <= len(data) && n < 1<<40
+//@   ensures result0 == int64(le64(data, n*16)) && result1 == int64(le64(data, n*16+8))
+//@   modifies nothing
+
+//@ func Murmur3H1
+//@   props C09
+//@   abstract_mul int64
+//@   ensures result == mm3_h1(data, len(data))
+//@   cases 0 15 len(data) & 15
+//@   use mm3_fold_base_ax(data)
+//@   loop 0: use mm3_fold_step_ax(data, i)
+//@   loop 0: exit i == nBlocks
+//@   loop 0: exit i == int(uint64(len(data)) >> 4)
+//@   loop 0: invariant 0 <= i && i <= nBlocks && nBlocks == length/16 && length == len(data)
+//@   loop 0: invariant h1 == mm3_fold1(data, i) && h2 == mm3_fold2(data, i)
